@@ -89,7 +89,7 @@ class Sizer:
             return ECHO_TID
         if t[0] == 'call' and t[1] == 'token::TokenStore::checkout':
             return 20    # Token wraps [u8; 20] (C06 TYPE rule)
-        if find_calls(t, 'announce_tokens') or (find_calls(t, '::get') and 'announce_tokens' in str(t)):
+        if find_calls(t, 'announce_tokens') or ((find_calls(t, '::get') or find_calls(t, '::filter_map')) and 'announce_tokens' in str(t)):
             return REMOTE_TOKEN
         if t[0] == 'str':
             return len(t[1].encode())
@@ -176,7 +176,7 @@ def run(ctx, res):
     sz = Sizer(ctx, res)
     sites = [x for x in ctx.calls_to('socket::Socket::send') + ctx.calls_to('socket::Socket::send_request') if not x.body.path.startswith('socket::')]
     res.sites += len(sites)
-    res.check(len(sites) >= 10, 'WHO', 'socket::Socket::send', 'send / send_request sites outside socket.rs (floor 10)', detail=str(len(sites)))
+    res.check(len(sites) >= 5, 'WHO', 'socket::Socket::send', 'send / send_request sites outside socket.rs (floor 5)', detail=str(len(sites)))
     seen_blocks = set()
     bodies = {x.body.path: x.body for x in sites}
     for path, body in sorted(bodies.items()):
